@@ -664,8 +664,8 @@ impl<'a> Sim<'a> {
                 states.sort();
                 states.dedup();
                 let flags = format!("{}{}", if dump.contains("reset: true") { " reset" } else { "" }, if dump.contains("timed_out: true") { " timed_out" } else { "" });
-                // "aborted handshake": only Closed entries that the application never owned
-                let class = if states == ["Closed"] && !dump.contains("fd_closed: true") { "LeakAbortedHandshake".to_string() } else { format!("Leak{}", states.join("")) };
+                // "aborted handshake": on the server host, only Closed entries that the application never owned
+                let class = if h == 0 && states == ["Closed"] && !dump.contains("fd_closed: true") { "LeakAbortedHandshake".to_string() } else { format!("Leak{}", states.join("")) };
                 let dump = format!(" (left-over TCP states: {states:?}{flags})");
                 self.fail(&class, format!("{label}: every connection was closed on both ends and the wire stayed empty for {} rounds, yet h{h}'s socket table holds {s} sockets / {b} bindings / {c} connection-index entries; the application owns {} sockets, {} bindings, 0 connections{dump}", q_rounds(&self.sc.cfg), want.0, want.1));
                 return;
@@ -711,7 +711,10 @@ fn judge_connects(sim: &mut Sim<'_>) {
             Some(l) if sim.ls[l].dropped_at.map(|d| d > end).unwrap_or(true) => {
                 // listening during the whole attempt
                 let others = (0..sim.cs.len())
-                    .filter(|&j| j != c && sim.sc.conns[j].to == Some(l) && sim.cs[j].started.map(|s| s <= end).unwrap_or(false) && !sim.cs[j].accepted_round.map(|a| a < start).unwrap_or(false))
+                    // with packets delayed or lost a retransmitted / late SYN of an already accepted
+                    // connection may still occupy a backlog slot as a half-open child: only in
+                    // fault-free runs do accepted connections stop counting
+                    .filter(|&j| j != c && sim.sc.conns[j].to == Some(l) && sim.cs[j].started.map(|s| s <= end).unwrap_or(false) && !(clean && sim.cs[j].accepted_round.map(|a| a < start).unwrap_or(false)))
                     .count();
                 let occupants = (0..sim.cs.len())
                     .filter(|&j| {
@@ -1212,7 +1215,7 @@ impl Property for C13 {
     }
     fn budget(tier: Tier) -> u64 {
         match tier {
-            Tier::Quick => 36_000,
+            Tier::Quick => 24_000,
             Tier::Thorough => 300_000,
         }
     }
@@ -1376,5 +1379,63 @@ impl Property for C13 {
             KF_FW2 => v.class == "LeakFinWait2" && !sc.guarded && sc.faults.iter().any(|f| f.kind == FaultKind::Drop),
             _ => false,
         }
+    }
+}
+
+#[cfg(test)]
+mod tests {
+    use super::*;
+
+    fn base() -> Scenario {
+        Scenario {
+            guarded: false,
+            cfg: NetCfg { retx_threshold: 3, retx_max: 5, backlog: 4 },
+            hosts: vec![vec!["10.0.0.1".into()], vec!["10.0.1.1".into()]],
+            listeners: vec![ListenerSpec { ip: "0.0.0.0".into(), port: 9000 }],
+            conns: vec![ConnSpec { from: 1, to: Some(0), sel: 0 }],
+            timeline: vec![(0, Act::Connect { c: 0 })],
+            faults: vec![],
+            reorder: false,
+            reuse: true,
+            no_count_check: false,
+        }
+    }
+
+    /// Known-good scripted scenario (the shape of the crate's own tcp tests): connect, accept,
+    /// write, close on both ends, re-bind and re-connect over the same 4-tuple: the oracle is silent.
+    #[test]
+    fn plain_connection_is_clean() {
+        let mut sc = base();
+        sc.timeline.push((0, Act::Accept { l: 0 }));
+        sc.timeline.push((4, Act::Write { c: 0, client: true, n: 8 }));
+        sc.timeline.push((6, Act::Read { c: 0, client: false }));
+        sc.timeline.push((7, Act::Drop { c: 0, client: true }));
+        sc.timeline.push((9, Act::Drop { c: 0, client: false }));
+        let (rep, pkts) = run_inner(&sc, true);
+        assert!(rep.violation.is_none(), "{:?}\n{}", rep.violation, rep.log.join("\n"));
+        assert!(pkts >= 6);
+        assert_eq!(rep.probes.get("four_tuple_reused"), 1);
+        assert_eq!(rep.probes.get("listener_rebound"), 1);
+    }
+
+    #[test]
+    fn refused_and_guard_and_matchers() {
+        let mut sc = base();
+        sc.conns[0].to = None;
+        let (rep, _) = run_inner(&sc, false);
+        assert!(rep.violation.is_none());
+        assert_eq!(rep.probes.get("connect_refused_judged"), 1);
+        let mut trig = base();
+        trig.timeline.push((0, Act::Cancel { c: 0 }));
+        assert!(guard_trigger(&trig));
+        assert!(!guard_trigger(&base()));
+        let v = Violation::new("LeakAbortedHandshake", "");
+        assert!(C13::known_match(KF_O8, &trig, &v));
+        assert!(!C13::known_match(KF_O8, &trig, &Violation::new("LeakEstablished", "")));
+        assert!(!C13::known_match(KF_FW2, &trig, &Violation::new("LeakFinWait2", "")));
+        trig.faults.push(Fault { idx: 3, kind: FaultKind::Drop });
+        assert!(C13::known_match(KF_FW2, &trig, &Violation::new("LeakFinWait2", "")));
+        trig.guarded = true;
+        assert!(!C13::known_match(KF_FW2, &trig, &Violation::new("LeakFinWait2", "")));
     }
 }
